@@ -339,4 +339,19 @@ theorem Mon.notifs_all (m : Mon) (c : Cond) :
   have := Mon.notify_spec m ⟨true, c⟩
   simpa [Mon.notifs] using this
 
+
+/-- `S'` is `S` without `t` (which has just returned from `wait()`), or `S` itself when `t` was not in it -/
+abbrev Shrunk (S S' : List Nat) (t : Nat) : Prop := S' = S ∧ t ∉ S ∨ S' = S.erase t ∧ t ∈ S
+
+/-- unlock -/
+def Mon.unlock (m : Mon) : Mon := { m with owner := none }
+@[simp] theorem Mon.unlock_owner (m : Mon) : m.unlock.owner = none := rfl
+@[simp] theorem Mon.unlock_ws (m : Mon) (c : Cond) : m.unlock.ws c = m.ws c := by cases c <;> rfl
+@[simp] theorem Mon.unlock_ne (m : Mon) : m.unlock.ne = m.ne := rfl
+@[simp] theorem Mon.unlock_nf (m : Mon) : m.unlock.nf = m.nf := rfl
+
+theorem Mon.Struct.unlock {m : Mon} {R R' : Nat → Cond → Prop} (h : m.Struct R) {t : Nat} (ho : m.owner = some t)
+    (ht : ∀ c, t ∉ (m.ws c).S) (hR : ∀ x c, x ≠ t → R x c → R' x c) : m.unlock.Struct R' :=
+  h.release ho ht hR
+
 end MuduoVerif.Monitor
